@@ -38,6 +38,16 @@ theorem reg_variadic_identity_irrelevant :
     dispatchers.all (fun d => d.sigs.all fun s => s.all fun v =>
       !v.isVar || slotSubE E₀ v v == .t) = true := by decide +kernel
 
+/-- every element multipledispatch holds went through the `typing_wrap` adapter as specified: a
+    GenericTypeMeta (funsor) class stays bare, EVERYTHING else — plain classes included — is wrapped, so that
+    `issubclass(subject, pattern)` reaches `deep_issubclass` and unpacks wrapped subjects (Union, Tuple,
+    FrozenSet).  A bare plain class would send wrapped subjects to `type.__subclasscheck__`: always False. -/
+theorem reg_adapter_normal :
+    dispatchers.all (fun d => (allAlts d).all fun a =>
+      match a.ty with
+      | .fn _ _ => !a.wrapped
+      | _ => a.wrapped) = true := by decide +kernel
+
 def isKey (s : Sig) : Bool := s.all fun x => !x.isVar
 
 /-- the exact-key shortcut against EVERY matching signature (any length, variadic included), per table:
